@@ -38,7 +38,7 @@ CHECKS = {
    note="bounded domain (3 ids, a in {NULL,1,2}, b in {NULL,0,1,5}); quick replays a stratified seeded sample of the explored transitions plus random walks, thorough replays depth-4 transitions; renderer/normaliser in lib/relational.py trusted; open findings listed in known_findings.json by spec-defined signature"),
  "C06": dict(cat="model_checking", ref="DESIGN.md 3.9, 6 (C06)",
    tech="TLA+ reference spec Relational.tla explored by TLC (per-transition emission, VIEW hides history; -simulate random walks); every behaviour rendered to SQL and replayed on TurDB, results and full observation compared with the model",
-   text="every failing statement TLC generates (all failure kinds incl. k-th row of a multi-row INSERT and multi-row UPDATE) and every statement TurDB rejects: the full observation afterwards must equal the model's pre-statement state (also for refused INSERT .. ON CONFLICT statements, USpec); on a table with an AUTO_INCREMENT primary key (schedules of AutoInc.tla) every statement TurDB rejects must leave the table as read back before it",
+   text="every failing statement TLC generates (all failure kinds incl. k-th row of a multi-row INSERT and multi-row UPDATE) and every statement TurDB rejects: the full observation afterwards must equal the model's pre-statement state (also for refused INSERT .. ON CONFLICT statements, USpec, and for statements that are wrong in themselves - unknown table / column / function, too many values, text into an INT column, also as the second row of a VALUES list and in a multi-row UPDATE / DELETE: BSpec); on a table with an AUTO_INCREMENT primary key (schedules of AutoInc.tla) every statement TurDB rejects must leave the table as read back before it",
    note="bounded domain (3 ids, a in {NULL,1,2}, b in {NULL,0,1,5}); quick replays a stratified seeded sample of the explored transitions plus random walks, thorough replays depth-4 transitions; renderer/normaliser in lib/relational.py trusted; open findings listed in known_findings.json by spec-defined signature"),
  "C09": dict(cat="model_checking", ref="DESIGN.md 3.9, 6 (C09)",
    tech="TLA+ reference spec Relational.tla explored by TLC (per-transition emission, VIEW hides history; -simulate random walks); every behaviour rendered to SQL and replayed on TurDB, results and full observation compared with the model",
